@@ -33,12 +33,16 @@ M = [
  ("is-complete-ignores-incomplete", "C08", "microscpi/src/parser.rs", "            Err(ParseError::Incomplete) => return false,\n            Err(_) => return true,", "            Err(_) => return true,"),
  ("process-without-complete-check", "C08", "microscpi/src/interface.rs", "                if !parser::is_complete(self.root_node(), data) {", "                if false && !parser::is_complete(self.root_node(), data) {"),
  ("is-complete-forgets-path", "C08", "microscpi/src/parser.rs", "                if let Some(call_header) = call.header {\n                    header = call_header;\n                }\n                input = rest;", "                input = rest;"),
+ ("f32-lazy-wrong-error", "C03", "microscpi/src/value.rs", "    fn try_into(self) -> Result<f32, Self::Error> {\n        match self {\n            Value::Decimal(data) => data.parse().or(Err(Error::NumericDataError)),", "    fn try_into(self) -> Result<f32, Self::Error> {\n        match self {\n            Value::Decimal(data) => data.parse().map_err(|_| Error::DataTypeError),"),
+ ("block-digits-helper-off-by-one", "C04", "microscpi/src/response.rs", "impl Response for Arbitrary<'_> {\n    async fn write_response(&self, f: &mut impl Write) -> Result<(), Error> {\n        let len = self.0.len();\n        if len > 0 {\n            let len_digits = len.ilog10() + 1;", "fn decimal_digits(len: usize) -> u32 {\n    len.ilog10()\n}\n\nimpl Response for Arbitrary<'_> {\n    async fn write_response(&self, f: &mut impl Write) -> Result<(), Error> {\n        let len = self.0.len();\n        if len > 0 {\n            let len_digits = decimal_digits(len);"),
  ("empty-unit-consumes-nothing", "C12", "microscpi/src/parser.rs", "    if _terminator.is_some() {\n        return Ok((input, None));", "    if _terminator.is_some() {\n        return Ok((&input[..0], None));"),
 ]
 REFACTORS = [
  ("digits-commuted-add", "C03", "microscpi/src/parser.rs", "    Ok((i2, &input[..res.len() + 1]))\n}\n\n/// Parses a program mnemonic", "    Ok((i2, &input[..1 + res.len()]))\n}\n\n/// Parses a program mnemonic"),
  ("execute-negated-branch", "C01", "microscpi/src/interface.rs", "        let command = if call.query {\n            call.node.query\n        }\n        else {\n            call.node.command\n        };", "        let command = if !call.query {\n            call.node.command\n        }\n        else {\n            call.node.query\n        };"),
  ("push-error-if-let", "C09", "microscpi/src/error_queue.rs", "        if self.0.push_back(error).is_err() {", "        if let Err(_rejected) = self.0.push_back(error) {"),
+ ("f32-map-err-closure", "C03", "microscpi/src/value.rs", "    fn try_into(self) -> Result<f32, Self::Error> {\n        match self {\n            Value::Decimal(data) => data.parse().or(Err(Error::NumericDataError)),", "    fn try_into(self) -> Result<f32, Self::Error> {\n        match self {\n            Value::Decimal(data) => data.parse().map_err(|_| Error::NumericDataError),"),
+ ("block-digits-helper", "C04", "microscpi/src/response.rs", "impl Response for Arbitrary<'_> {\n    async fn write_response(&self, f: &mut impl Write) -> Result<(), Error> {\n        let len = self.0.len();\n        if len > 0 {\n            let len_digits = len.ilog10() + 1;", "fn decimal_digits(len: usize) -> u32 {\n    len.ilog10() + 1\n}\n\nimpl Response for Arbitrary<'_> {\n    async fn write_response(&self, f: &mut impl Write) -> Result<(), Error> {\n        let len = self.0.len();\n        if len > 0 {\n            let len_digits = decimal_digits(len);"),
  ("process-comment-and-blank-lines", "C07", "microscpi/src/interface.rs", "            read_offset = read_end;\n", "            // all terminators of this read are handled\n\n            read_offset = read_end;\n"),
 ]
 
